@@ -56,6 +56,61 @@ fn tuples_line(ct: &CircuitText, n: usize, reps: usize, seed0: u64, repr: &str) 
     Some((req, s))
 }
 
+/// Wide registers (word boundaries of the tableau's bit packing): Clifford circuits that keep every qubit in a basis state
+/// at the end (X/Y/Z, CX, Swap on basis qubits; H ... H windows around operations that avoid the qubit; H S S H = X), so
+/// the ONLY register value of non-zero probability is known classically - computed here, independently of the library.
+fn wide_line(rng: &mut SplitMix64) -> (String, String)
+{
+    let nq = *rng.pick(&[31usize, 32, 33, 63, 64, 65, 66, 67, 95, 96, 97, 128, 130]);
+    let mut bits = vec![false; nq];
+    let mut open: Vec<bool> = vec![false; nq];      // inside an H ... H window
+    let mut ops: Vec<String> = vec![];
+    let hot = |rng: &mut SplitMix64| -> usize {
+        // qubits near the word boundaries are what matters
+        let cands = [0usize, 1, 30, 31, 32, 33, 62, 63, 64, 65, 66, 94, 95, 96, 97, 127, 128, 129];
+        loop { let q = if rng.below(4) == 0 { rng.below(nq as u64) as usize } else { *rng.pick(&cands) }; if q < nq { return q; } }
+    };
+    for _ in 0..(6 + rng.below(30))
+    {
+        let q = hot(rng);
+        match rng.below(9)
+        {
+            0 | 1 if !open[q] => { ops.push(format!("gate 1 {} X", q)); bits[q] = !bits[q]; },
+            2 if !open[q] => { ops.push(format!("gate 1 {} Y", q)); bits[q] = !bits[q]; },
+            3 if !open[q] => { ops.push(format!("gate 1 {} Z", q)); },
+            4 => { ops.push(format!("gate 1 {} H", q)); open[q] = !open[q]; },
+            5 if !open[q] => { for g in ["H", "S", "S", "H"].iter() { ops.push(format!("gate 1 {} {}", q, g)); } bits[q] = !bits[q]; },
+            6 | 7 => { let r = hot(rng); if r != q && !open[q] && !open[r] { ops.push(format!("gate 2 {} {} CX", q, r)); if bits[q] { bits[r] = !bits[r]; } } },
+            _ => { let r = hot(rng); if r != q && !open[q] && !open[r] { ops.push(format!("gate 2 {} {} Swap", q, r)); bits.swap(q, r); } }
+        }
+    }
+    for q in 0..nq { if open[q] { ops.push(format!("gate 1 {} H", q)); } }
+    // measure up to 64 qubits (the hot ones first) into distinct classical bits
+    let mut qs: Vec<usize> = [0usize, 31, 32, 33, 63, 64, 65, 66, 95, 96, 97, 128, 129].iter().cloned().filter(|q| *q < nq).collect();
+    while qs.len() < 20.min(nq) { let q = rng.below(nq as u64) as usize; if !qs.contains(&q) { qs.push(q); } }
+    let mut expect = 0u64;
+    for (c, q) in qs.iter().enumerate() { ops.push(format!("measure {} {} Z", q, c)); if bits[*q] { expect |= 1 << c; } }
+    let ct = CircuitText { nq, nc: qs.len(), ops };
+    let shots = 4;
+    let seed = rng.next();
+    let req = format!("wide | auto | {} | {} | {} | {}", nq, shots, seed, ct.ops.join(" ; "));
+    let ans = match build(&ct)
+    {
+        Err(e) => format!("build-{}", show_err(&e)),
+        Ok(mut circuit) => {
+            let run = execute_traced(&mut circuit, nq, shots, seed, "auto");
+            match (&run.result, &run.final_cstate)
+            {
+                (Some(Ok(())), Some(cs)) => if cs.iter().all(|w| *w == expect) { "same".to_string() }
+                    else { format!("differs only-possible-value={} register={}", expect, join(cs)) },
+                (Some(Err(e)), _) => show_err(e),
+                _ => "panic".to_string()
+            }
+        }
+    };
+    (req, ans)
+}
+
 fn lit(nq: usize, nc: usize, ops: &[&str]) -> CircuitText
 {
     CircuitText { nq, nc, ops: ops.iter().map(|s| s.to_string()).collect() }
@@ -112,6 +167,8 @@ fn main()
         let seed = rng.next();
         for repr in ["stabilizer", "vector"].iter() { if let Some((r, a)) = hist_line(&ct, shots, seed, repr) { out.case(&r, &a); } }
     }
+    // wide registers: the only possible register value is known classically
+    for _ in 0..(if thorough() { 400 } else { 80 }) { let (r, a) = wide_line(&mut rng); out.case(&r, &a); }
     // witnesses of the known defects (request kind prefixed with `w:<finding>`)
     let wit: Vec<(&str, &str, CircuitText)> = vec![
         ("D2-peek-correlated", "vector", lit(1, 2, &["gate 1 0 H", "peek 0 0 Z", "peek 0 1 Z"])),
